@@ -282,10 +282,10 @@ package collection
 //@   implements ListClassLike.Make
 //@   ensures inv(list_, result)
 //@ func (*listClass_).MakeFromArray
-//@   props C01 C18 C19
+//@   props C01 C18 C19 C13
 //@   implements ListClassLike.MakeFromArray
 //@ func (*listClass_).MakeFromSequence
-//@   props C01 C18 C19
+//@   props C01 C18 C19 C13
 //@   implements ListClassLike.MakeFromSequence
 //@   loop 1:
 //@     invariant snap(iterator) == old(view(values)) && 0 <= pos(iterator) && pos(iterator) <= len(snap(iterator))
@@ -440,9 +440,12 @@ package collection
 
 //@ type *stackClass_
 //@   hypothesis this.defaultCapacity_ >= 1
+// srep(s): the list a stack keeps its values in (owned by the stack, never shared)
+//@ model srep U
 //@ type *stack_
 //@   view view(this.values_)
 //@   modelfield capacity this.capacity_
+//@   modelfield srep this.values_
 //@   invariant this.class_ != nil && this.values_ != nil
 //@   invariant[C13] 1 <= this.capacity_ && len(view(this.values_)) <= this.capacity_
 
@@ -491,10 +494,12 @@ package collection
 //@   props C13 C18 C19
 //@   implements StackClassLike.MakeFromArray
 //@   ensures[C13] inv(stack_, result)
+//@   checks[C18] fresh(srep(result))
 //@ func (*stackClass_).MakeFromSequence
 //@   props C13 C18 C19
 //@   implements StackClassLike.MakeFromSequence
 //@   ensures[C13] inv(stack_, result)
+//@   checks[C18] fresh(srep(result))
 //@ func (*stack_).GetCapacity
 //@   props C13 C19
 //@   implements StackLike.GetCapacity
@@ -740,7 +745,7 @@ package collection
 //@   requires collator(first) == collator(second) && preorder(collator(first))
 //@   nopanic
 //@   modifies cstate(collator(first))
-//@   ensures[C15] fresh(result) && result != nil && collator(result) == c && sorted(c, view(result))
+//@   ensures[C15,C18] fresh(result) && result != nil && collator(result) == c && sorted(c, view(result))
 //@   ensures[C15] forall y U :: smem(c, view(result), y) <==> smem(c, view(first), y) && smem(c, view(second), y)
 //@   ensures[C15] view(first) == old(view(first)) && view(second) == old(view(second))
 //@ iface SetClassLike.Or
@@ -748,7 +753,7 @@ package collection
 //@   requires collator(first) == collator(second) && preorder(collator(first))
 //@   nopanic
 //@   modifies cstate(collator(first))
-//@   ensures[C15] fresh(result) && result != nil && collator(result) == c && sorted(c, view(result))
+//@   ensures[C15,C18] fresh(result) && result != nil && collator(result) == c && sorted(c, view(result))
 //@   ensures[C15] forall y U :: smem(c, view(result), y) <==> smem(c, view(first), y) || smem(c, view(second), y)
 //@   ensures[C15] view(first) == old(view(first)) && view(second) == old(view(second))
 //@ iface SetClassLike.Sans
@@ -756,7 +761,7 @@ package collection
 //@   requires collator(first) == collator(second) && preorder(collator(first))
 //@   nopanic
 //@   modifies cstate(collator(first))
-//@   ensures[C15] fresh(result) && result != nil && collator(result) == c && sorted(c, view(result))
+//@   ensures[C15,C18] fresh(result) && result != nil && collator(result) == c && sorted(c, view(result))
 //@   ensures[C15] forall y U :: smem(c, view(result), y) <==> smem(c, view(first), y) && !smem(c, view(second), y)
 //@   ensures[C15] view(first) == old(view(first)) && view(second) == old(view(second))
 //@ iface SetClassLike.Xor
@@ -764,7 +769,7 @@ package collection
 //@   requires collator(first) == collator(second) && preorder(collator(first))
 //@   nopanic
 //@   modifies cstate(collator(first))
-//@   ensures[C15] fresh(result) && result != nil && collator(result) == c && sorted(c, view(result))
+//@   ensures[C15,C18] fresh(result) && result != nil && collator(result) == c && sorted(c, view(result))
 //@   ensures[C15] forall y U :: smem(c, view(result), y) <==> (smem(c, view(first), y) && !smem(c, view(second), y)) || (smem(c, view(second), y) && !smem(c, view(first), y))
 //@   ensures[C15] view(first) == old(view(first)) && view(second) == old(view(second))
 
@@ -789,7 +794,7 @@ package collection
 //@     decreases len(snap(iterator)) - pos(iterator)
 
 //@ func (*setClass_).And
-//@   props C15 C19
+//@   props C15 C19 C18
 //@   implements SetClassLike.And
 //@   checks[C19] fresh(collator(result))
 //@   uses smem_snoc, smem_take_all, smem_take_none, smem_empty, smem_equiv
@@ -801,17 +806,17 @@ package collection
 //@     invariant forall y U :: smem(c, view(result), y) <==> smem(c, old(view(first))[0:pos(iterator)], y) && smem(c, old(view(second)), y)
 //@     decreases len(snap(iterator)) - pos(iterator)
 //@ func (*setClass_).Or
-//@   props C15 C19
+//@   props C15 C19 C18
 //@   implements SetClassLike.Or
 //@   checks[C19] fresh(collator(result))
 //@   uses smem_empty
 //@ func (*setClass_).Sans
-//@   props C15 C19
+//@   props C15 C19 C18
 //@   implements SetClassLike.Sans
 //@   checks[C19] fresh(collator(result))
 //@   uses smem_empty
 //@ func (*setClass_).Xor
-//@   props C15 C19
+//@   props C15 C19 C18
 //@   implements SetClassLike.Xor
 //@   checks[C19] fresh(collator(result))
 
@@ -1569,7 +1574,7 @@ package collection
 //@   nopanic
 //@   requires !held(qmutex(this)) && !chanclosed(this.available_)
 //@   modifies view(this.values_), held(qmutex(this))
-//@   ensures[C04] !held(qmutex(this)) && view(this) == old(view(this)) ++ single(value)
+//@   ensures[C04,C05] !held(qmutex(this)) && view(this) == old(view(this)) ++ single(value)
 //@   ensures[C04,C05] old(len(view(this))) < this.capacity_
 //@ func (*queue_).RemoveHead
 //@   props C04 C05 C19
@@ -1578,23 +1583,23 @@ package collection
 //@   nopanic
 //@   requires !held(qmutex(this))
 //@   modifies view(this.values_), held(qmutex(this))
-//@   ensures[C04] !held(qmutex(this))
-//@   ensures[C04] result.1 ==> old(len(view(this))) > 0 && result.0 == old(view(this))[0] && view(this) == remove(old(view(this)), 0)
-//@   ensures[C04] !result.1 ==> old(len(view(this))) == 0 && chanclosed(this.available_) && view(this) == old(view(this)) && result.0 == zero(V)
+//@   ensures[C04,C05] !held(qmutex(this))
+//@   ensures[C04,C05] result.1 ==> old(len(view(this))) > 0 && result.0 == old(view(this))[0] && view(this) == remove(old(view(this)), 0)
+//@   ensures[C04,C05] !result.1 ==> old(len(view(this))) == 0 && chanclosed(this.available_) && view(this) == old(view(this)) && result.0 == zero(V)
 //@ func (*queue_).RemoveAll
-//@   props C04 C19
+//@   props C04 C19 C05
 //@   interfered
 //@   nopanic
 //@   requires !held(qmutex(this))
 //@   modifies this.values_, this.available_, held(qmutex(this))
-//@   ensures[C04] !held(qmutex(this)) && view(this) == empty()
+//@   ensures[C04,C05] !held(qmutex(this)) && view(this) == empty()
 //@ func (*queue_).CloseQueue
-//@   props C04 C19
+//@   props C04 C19 C05
 //@   interfered
 //@   requires !held(qmutex(this))
 //@   modifies held(qmutex(this))
-//@   ensures[C04] !held(qmutex(this)) && chanclosed(this.available_) && view(this) == old(view(this))
-//@   xensures[C04] !held(qmutex(this)) || old(chanclosed(this.available_))
+//@   ensures[C04,C05] !held(qmutex(this)) && chanclosed(this.available_) && view(this) == old(view(this))
+//@   xensures[C04,C05] !held(qmutex(this)) || old(chanclosed(this.available_))
 //@ func (*queue_).IsEmpty
 //@   props C04 C19
 //@   interfered
